@@ -69,16 +69,18 @@ class StubState:
         return self
 
 
-@harness('D5', targets='kopf._core.engines.daemons._timer', props=['C10', 'C09', 'C08', 'C11'],
-         clauses=['no_self_overlap', 'first_run_after_initial_delay', 'not_within_idle_time', 'after_success_interval',
-                  'after_success_sharp_grid', 'after_failure_delay', 'one_shot_without_interval_and_idle',
-                  'idle_only_waits_for_change', 'no_spin_under_stop', 'patch_carried_over', 'state_threaded'],
-         canaries=['canary.never_runs', 'canary.never_sleeps_interval'],
-         trusted=['aiotime.sleep by contract T1 (pyvc.stubs.make_sleep)', 'progression.State by contract G3',
-                  'execution.execute_handlers_once by contract X2', 'application.patch_and_check by contract A2'],
-         assumes=['timer settings are positive durations where given: interval > 0, idle > 0 (kopf.timer docs); initial_delay is a number or None (callables: the value they return)',
-                  'memory.idle_reset_time is only ever set to the current loop time by process_spawning_cause (H7): monotone, never in the future'])
-def D5(vc):
+_COMMON = dict(
+    targets='kopf._core.engines.daemons._timer', props=['C10', 'C09', 'C08', 'C11'],
+    trusted=['aiotime.sleep by contract T1 (pyvc.stubs.make_sleep)', 'progression.State by contract G3',
+             'execution.execute_handlers_once by contract X2', 'application.patch_and_check by contract A2',
+             'Mult(x, b) ("x is an integer multiple of b") is uninterpreted; only closure under +-b is used'],
+    assumes=['timer settings are positive durations where given: interval > 0, idle > 0 (kopf.timer docs); initial_delay is a number or None (callables: the value they return)',
+             'memory.idle_reset_time is only ever set to the current loop time by process_spawning_cause (H7): monotone, never in the future'])
+_BASE = ['no_self_overlap', 'first_run_after_initial_delay', 'start_not_before_scheduled_time', 'after_failure_delay',
+         'patch_carried_over', 'state_threaded']
+
+
+def _timer_contract(vc, has_interval, has_idle, sharp_values):
     """
     daemons._timer: one arbitrary round of its main loop (and of each inner waiting loop) from an arbitrary state
     satisfying   stopper set  or  clock >= next_allowed   where the ghost `next_allowed` is what the schedule
@@ -96,10 +98,10 @@ def D5(vc):
     sym = not vc.concrete
     clock = Clock()
     stop = Cell(vc)
-    interval = vc.opt('interval', vc.real)
-    idle = vc.opt('idle', vc.real)
+    interval = vc.real('interval') if has_interval else None
+    idle = vc.real('idle') if has_idle else None
     initial_delay = vc.opt('initial_delay', vc.real)
-    sharp = vc.fin('sharp', [None, False, True])
+    sharp = vc.fin('sharp', sharp_values)
     if interval is not None: vc.assume(interval > 0, 'interval is a positive duration')
     if idle is not None: vc.assume(idle > 0, 'idle is a positive duration')
     handler = handlers_.TimerHandler(
@@ -156,6 +158,7 @@ def D5(vc):
         if G.prev_state is not None:
             vc.ensure('state_threaded', Implies(Not(G.prev_state.done), st is G.prev_state))
             vc.ensure('state_threaded', Implies(G.prev_state.done, st is not G.prev_state))
+        vc.canary('canary.never_runs', False)
         G.running = True
         G.run_start = clock.now
         G.runs += 1
@@ -183,6 +186,12 @@ def D5(vc):
         ok_time = True if G.next_allowed is None else Or(stop.state, clock.now >= G.next_allowed)
         return And(ok_time, memory.idle_reset_time <= clock.now, isinstance(loc.get('state'), StubState), not G.running)
 
+    def entry_main(loc):
+        if initial_delay is not None:
+            vc.ensure('first_run_after_initial_delay', Or(stop.state, clock.now >= t_entry + initial_delay))
+        else:
+            vc.ensure('first_run_after_initial_delay', G.susp == 0)     # nothing delays the first round
+
     def havoc_main(loc):
         clock.advance(0)
         stop.state = vc.bool('stopper.is_set')
@@ -191,8 +200,7 @@ def D5(vc):
         had_run = vc.nondet(2, 'a previous round ran the handler?') == 1
         G.prev_state = st if had_run else None
         G.next_allowed = vc.real('next_allowed') if (had_run or initial_delay is not None) and vc.nondet(2, 'bound pending?') == 1 else None
-        G.next_law = resolve(vc.fin('pending law', ['after_success_interval', 'after_success_sharp_grid', 'after_failure_delay',
-                                                   'first_run_after_initial_delay'])) if G.next_allowed is not None else None
+        G.next_law = 'start_not_before_scheduled_time' if G.next_allowed is not None else None
         G.run_start = G.run_end = None
         G.susp = 0
         G.runs = 0
@@ -231,18 +239,20 @@ def D5(vc):
             vc.ensure('after_success_interval', Implies(done, Or(stop.state, clock.now >= want[1])))
             vc.canary('canary.never_sleeps_interval', Not(done))
             G.next_allowed = If(done, want[1], fail_bound) if sym else (want[1] if done else fail_bound)
-            G.next_law = 'after_success_interval'
+            G.next_law = 'start_not_before_scheduled_time'
         elif want is not None and want[0] == 'after_success_sharp_grid':
-            # the next start is not before a grid point start + k*interval (k >= 1) that is not before the run's end
-            if sym:
-                k = z3.Int('k!grid')
-                I, t, s0, e = interval.term, clock.now.term, G.run_start.term, G.run_end.term
-                grid = z3.Exists([k], z3.And(k >= 1, t >= s0 + z3.ToReal(k) * I, s0 + z3.ToReal(k) * I >= e))
-                vc.ensure('after_success_sharp_grid', Implies(done, Or(stop.state, SBool(grid))))
+            # the next start is not before a grid point g = start + k*interval (k >= 1) that is not before the run's end:
+            # g is observable as (time of the schedule sleep) + (its duration)
+            sl = [ev for ev in vc.trace if ev[0] == 'sleep']
+            if bool(done) if not isinstance(done, SBool) else True:
+                pass
+            last = sl[-1] if sl else None
+            if last is None:
+                vc.ensure('after_success_sharp_grid', Not(done))
             else:
-                import math
-                kmin = max(1, math.ceil((G.run_end - G.run_start) / interval))
-                vc.ensure('after_success_sharp_grid', (not done) or stop.state or clock.now >= G.run_start + kmin * interval)
+                g = last[5] + last[1]
+                on_grid = And(is_multiple(g - G.run_start, interval), g - G.run_start >= interval, g >= G.run_end)
+                vc.ensure('after_success_sharp_grid', Implies(done, And(on_grid, Or(stop.state, clock.now >= g))))
             G.next_allowed = None
         elif want is not None:
             vc.ensure('idle_only_waits_for_change', Implies(done, Or(stop.state, memory.idle_reset_time > G.run_start)))
@@ -251,7 +261,7 @@ def D5(vc):
             # neither interval nor idle: a finished run ends the timer -- the back edge is only for retries
             vc.ensure('one_shot_without_interval_and_idle', Not(done))
             G.next_allowed = fail_bound
-            G.next_law = 'after_failure_delay'
+            G.next_law = 'start_not_before_scheduled_time'
         if G.next_allowed is None:
             G.next_law = None
 
@@ -283,16 +293,36 @@ def D5(vc):
         'execution.execute_handlers_once': execute_handlers_once,
         'application.patch_and_check': patch_and_check,
         'patches.Patch': Patch,
-    }, loops={
-        1: LoopSpec('while not stopper.is_set():', invariant=inv_main, havoc=havoc_main, at_backedge=back_main, on_exit=exit_main),
+    }, loops=({
+        1: LoopSpec('while not stopper.is_set():', invariant=inv_main, havoc=havoc_main, at_backedge=back_main, on_exit=exit_main, at_entry=entry_main,
+                    dedup_key=lambda loc: (initial_delay is None,)),
         2: LoopSpec('while not stopper.is_set() and clock() - memory.idle_reset_time < handler.idle', invariant=inv_wait,
                     havoc=havoc_wait, at_backedge=back_wait),
         3: LoopSpec('while memory.idle_reset_time <= started', invariant=inv_wait, havoc=havoc_wait, at_backedge=back_wait),
-    })
+    }))
     # before the loop: the initial delay
     if initial_delay is not None:
         G.next_allowed = t_entry + initial_delay
         G.next_law = 'first_run_after_initial_delay'
     vc.drive(ld.fn(settings=settings, handler=handler, memory=memory, cause=cause), on_suspend=on_suspend)
-    vc.canary('canary.never_runs', G.runs == 0)
     return ('returned', G.runs)
+
+
+def _mk(hid, has_interval, has_idle, sharp_values, extra_clauses, canaries, doc):
+    def fn(vc):
+        return _timer_contract(vc, has_interval, has_idle, sharp_values)
+    fn.__doc__ = doc + '\n' + (_timer_contract.__doc__ or '')
+    fn.__name__ = hid
+    harness(hid, clauses=_BASE + extra_clauses, canaries=canaries, **_COMMON)(fn)
+
+
+_mk('D5i', True, False, [None, False], ['after_success_interval'], ['canary.never_runs', 'canary.never_sleeps_interval'],
+    'daemons._timer with interval=, non-sharp, no idle=.')
+_mk('D5s', True, False, [True], ['after_success_sharp_grid'], ['canary.never_runs'],
+    'daemons._timer with interval= and sharp=True, no idle=.')
+_mk('D5x', True, True, [None, False, True], ['after_success_interval', 'after_success_sharp_grid', 'not_within_idle_time', 'no_spin_under_stop'],
+    ['canary.never_runs'], 'daemons._timer with interval= and idle=.')
+_mk('D5d', False, True, [None, False, True], ['not_within_idle_time', 'idle_only_waits_for_change', 'no_spin_under_stop'], ['canary.never_runs'],
+    'daemons._timer with idle= only (runs once after every idle period following a change).')
+_mk('D5o', False, False, [None, False, True], ['one_shot_without_interval_and_idle'], ['canary.never_runs'],
+    'daemons._timer with neither interval= nor idle=: a one-shot handler (retried until it finishes).')
